@@ -1,22 +1,52 @@
 (** An ideal in-memory seekable stream (std::io::Cursor<Vec<u8>> / futures::io::Cursor): every
-    request is satisfied fully and immediately.  Writing past the end zero-fills the gap. *)
+    request is satisfied fully and immediately.  Writing past the end zero-fills the gap.
+    The stream also records the sequence of operations performed on it (the operation log), which
+    is what the torn-write (C17) and fail-stop (C15) properties talk about. *)
 Require Import PM.Base.
 Open Scope N_scope.
 
-Record wstream := mkWS { ws_img : bytes; ws_pos : N }.
+(** One logical stream operation.  A [EvWrite] is one [write_all] of a byte string at a known
+    position; the implementation may split it into any number of [write] calls.  [sw = true] marks
+    bytes that a synchronous codec writer emits from its [Drop] implementation, where an I/O error
+    is discarded instead of being returned. *)
+Inductive event :=
+| EvWrite (sw : bool) (pos : N) (bs : bytes)
+| EvSeek (pos : N)
+| EvPos            (* stream_position() *)
+| EvFlush
+| EvClose.
+
+Record wstream := mkWS { ws_img : bytes; ws_pos : N; ws_log : list event (* most recent first *) }.
 
 Definition pad_to (n : nat) (b : bytes) : bytes := b ++ repeat 0 (n - length b).
 (** overwrite/extend [img] at position [pos] with [bs] *)
 Definition write_at (img : bytes) (pos : N) (bs : bytes) : bytes :=
   let p := N.to_nat pos in
   firstn p (pad_to p img) ++ bs ++ skipn (p + length bs) img.
-Definition ws_write (s : wstream) (bs : bytes) : wstream :=
+
+Definition ws_new (img : bytes) (pos : N) : wstream := mkWS img pos [].
+Definition ws_log_ev (s : wstream) (e : event) : wstream := mkWS (ws_img s) (ws_pos s) (e :: ws_log s).
+
+(** [write_all(bs)]; an empty write touches nothing (Cursor does not even extend the vector) *)
+Definition ws_write_gen (sw : bool) (s : wstream) (bs : bytes) : wstream :=
   match bs with
   | [] => s
-  | _ => mkWS (write_at (ws_img s) (ws_pos s) bs) (ws_pos s + nlen bs)
+  | _ => mkWS (write_at (ws_img s) (ws_pos s) bs) (ws_pos s + nlen bs) (EvWrite sw (ws_pos s) bs :: ws_log s)
   end.
-Definition ws_seek (s : wstream) (pos : N) : wstream := mkWS (ws_img s) pos.
+Definition ws_write (s : wstream) (bs : bytes) : wstream := ws_write_gen false s bs.
+Definition ws_seek (s : wstream) (pos : N) : wstream := mkWS (ws_img s) pos (EvSeek pos :: ws_log s).
+(** [stream_position()] *)
+Definition ws_tell (s : wstream) : wstream * N := (ws_log_ev s EvPos, ws_pos s).
+
+(** the image obtained by replaying a list of events (oldest first) on an image *)
+Fixpoint replay (evs : list event) (img : bytes) : bytes :=
+  match evs with
+  | [] => img
+  | EvWrite _ pos bs :: r => replay r (write_at img pos bs)
+  | _ :: r => replay r img
+  end.
 
 (** the bytes a reader gets from [seek(Start(off))] followed by [take(len)] *)
 Definition section (img : bytes) (off len : N) : bytes :=
-  firstn (N.to_nat len) (skipn (N.to_nat off) img).
+  if nlen img <=? off then [] else
+  firstn (N.to_nat (N.min len (nlen img - off))) (skipn (N.to_nat off) img).
